@@ -78,6 +78,7 @@ structure Req where
   cW : Array Entry := #[]
   cP : Array Entry := #[]
   cS : Array Entry := #[]
+  expSen : Array (List Int) := #[]
   cw : Array (Nat × List Nat) := #[]
   cp : Array (Nat × List Nat) := #[]
   sf : List Int := []
@@ -155,6 +156,10 @@ def Req.feed (r : Req) (ws : List String) : Req :=
     | some sen, some st, some du, some sc, some par =>
       { r with cS := r.cS.push { start := st, duration := du, score := sc, parent := par.toNat, child := 0, id := sen } }
     | _, _, _, _, _ => err "S"
+  | "X" :: _i :: _ci :: _lc :: _rc :: _pos :: _ssid :: sens =>
+    match intsOf sens with
+    | some v => { r with expSen := r.expSen.push v }
+    | none => err "X"
   | "CW" :: i :: l =>
     match parseNat i, natsOf l with
     | some i, some l => { r with cw := r.cw.push (i, l) }
@@ -267,7 +272,8 @@ def process (m : Mdl) (r : Req) (out : IO.FS.Stream) : IO Unit := do
     match buildTree r with
     | none => out.putStrLn "OK tree=0"
     | some t =>
-      let ok := alignOKB D.pron m.nEmit senOK fp T t
+      let ok := alignOKB D.pron m.nEmit senOK r.expSen.toList fp T t
+      let cx := decide ((t.flatMap (·.phones)).map (fun p => p.states.map (·.id)) = r.expSen.toList)
       -- which clause fails (diagnostics only; `ok` is the verdict)
       let c1 := decide (t.map (fun w => (w.e.id, w.e.start, w.e.duration)) = fp.map (fun s => (s.wid, s.sf, s.ef - s.sf + 1)))
       let c2 := decide (∀ w ∈ t, w.phones.map (·.e.id) = D.pron w.e.id)
@@ -292,7 +298,7 @@ def process (m : Mdl) (r : Req) (out : IO.FS.Stream) : IO Unit := do
         | some pe => childrenOf r.cS.toList pi pe.child == sl.filterMap (fun si => r.cS[si]?)
         | none => false
       let b (x : Bool) : String := if x then "1" else "0"
-      out.putStrLn s!"OK tree=1 alignOK={b ok} words={b c1} phones={b c2} states={b c3} partition={b c4} contiguous={b c5} scores={b c6} flat={b flat} iter={b (iterW && iterP)} T={T}"
+      out.putStrLn s!"OK tree=1 alignOK={b ok} words={b c1} phones={b c2} states={b c3} ctx={b cx} partition={b c4} contiguous={b c5} scores={b c6} flat={b flat} iter={b (iterW && iterP)} T={T}"
   if r.haveTok then
     let ne := m.nEmit
     let sfA := r.sf.toArray
